@@ -59,6 +59,7 @@ THEOREMS = [
     "PP.C18.real_pattern_ast", "PP.C18.real_language", "PP.C18.ureal_language", "PP.C18.accepts_signOpt",
     "PP.C18.uuid_language", "PP.C18.iso8601_date_language", "PP.C18.fnumber_language", "PP.C18.fnumber_body_language",
     "PP.C18.expo_accepts",
+    "PP.C18.sci_real_language", "PP.C18.sci_body_language", "PP.C18.ureal_first_sound", "PP.C18.ureal_first_complete",
     "PP.C18.sci_real_pattern_ast", "PP.C18.fnumber_pattern_ast",
     "PP.C18.ieee_float_pattern_ast", "PP.C18.identifier_pattern_ast", "PP.C18.ipv4_address_pattern_ast",
     "PP.C18.mac_address_pattern_ast", "PP.C18.iso8601_date_pattern_ast", "PP.C18.iso8601_datetime_pattern_ast",
